@@ -138,13 +138,18 @@ func CramMD5(acc Account, challenge string, res *Result) refsmtp.AuthHandler {
 			res.set("CRAM-MD5", false, true, "digest is not hex")
 			return "501 5.5.2 malformed digest"
 		}
-		m := hmac.New(md5.New, []byte(acc.Pass))
-		m.Write([]byte(challenge))
-		want := hex.EncodeToString(m.Sum(nil))
+		want := CramDigest(acc.Pass, challenge)
 		ok := eq(user, acc.User) && eq(digest, want)
 		res.set("CRAM-MD5", ok, false, "credentials compared")
 		return final(ok)
 	}
+}
+
+// CramDigest is the RFC 2195 digest: lower-case hex of HMAC-MD5(secret, challenge).
+func CramDigest(secret, challenge string) string {
+	m := hmac.New(md5.New, []byte(secret))
+	m.Write([]byte(challenge))
+	return hex.EncodeToString(m.Sum(nil))
 }
 
 // XOAuth2 implements Google's XOAUTH2 format: "user=" user ^A "auth=Bearer " token ^A ^A.
